@@ -272,7 +272,15 @@ func (g *Gen) query(o *Obl, extraHyp string, model bool) string {
 	for _, d := range g.preDefs {
 		b.WriteString(d + "\n")
 	}
-	for _, d := range g.defs[:o.NDefs] {
+	// slice: only assumptions emitted in blocks that can reach the obligation's block (forward edges)
+	var anc map[int]bool
+	if o.Block >= 0 && !o.Vacuity && g.fn != nil {
+		anc = g.ancestors(o.Block)
+	}
+	for i, d := range g.defs[:o.NDefs] {
+		if anc != nil && i < len(g.defBlk) && g.defBlk[i] >= 0 && !anc[g.defBlk[i]] {
+			continue
+		}
 		b.WriteString(d + "\n")
 	}
 	fmt.Fprintf(&b, "; obligation %s\n; clause: %s  (%s)\n", o.Name, o.Text, o.Where)
